@@ -25,10 +25,10 @@ from common import enc_bool, enc_str, parse_ms, run_driver
 TRANSLATORS = ["T4"]
 LEVEL = "proof"
 ASSUMPTIONS = [
-    "keys and patterns are sequences of Unicode scalar values; completeness of the regex family (and the binding theorems) assume a key without line feed (CPython: '.' does not match '\\n'; open finding F21-NLb); soundness (never True outside the denotation) is proved for every key",
+    "keys and patterns are sequences of Unicode scalar values; a line feed in a key is a character like any other (the key matchers compile their regex with (?s) and anchor it with \\Z)",
     "documented form (decidable, Spec/Builtin.lean tok2/tok3/tok5/segs2/segsB): literals are not regex metacharacters, '*' directly follows '/', (keyMatch2: or is the whole pattern), ':name' runs to the next '/', '{name}' closes in its segment; for keyMatch4/5 a name contains no brace; for the binding functions variables and '*' are whole segments and '*' is last",
     "CPython's re is modelled on the fragment the rewrites emit (literal, '.', '[^/]', '[^\\/]' with none/*/+/+? and one-atom capture groups); ipaddress (CPython 3.12) is transcribed function by function for both families: dotted quads, the IPv6 text forms ('::', dotted-quad suffix, %zone), '/prefixlen' and IPv4 dotted netmasks/hostmasks; nothing of ip_match is left outside the model (theorem ipMatch_total); both validated by the same differential run, not verified",
-    "glob_match is modelled as repaired by fix_F09 (faithful star case); the key matchers as repaired by fix_F21NL (\\Z anchor)",
+    "glob_match is modelled as repaired by fix_F09 (faithful star case); the key matchers as repaired by fix_F21NL (\\Z anchor) and fix_F21NLb ((?s): '.' matches line feeds)",
 ]
 TRUSTED_EXTRA = ["translator T4 (tools/translate/t4_functions.py)", "CPython re / ipaddress on the modelled fragment"]
 
@@ -240,10 +240,8 @@ def oracle_tokens(kind, p):
     return out
 
 
-def oracle_k(op, k, p, allow_nl=False):
+def oracle_k(op, k, p):
     kind = {"keymatch2": 2, "keymatch3": 3, "keymatch5": 5}[op]
-    if "\n" in k and not allow_nl:
-        return None
     toks = oracle_tokens(kind, p)
     if toks is None:
         return None
@@ -316,8 +314,6 @@ def oracle_glob_rx(p):
 def seg_oracle(op, args):
     """keyMatch4 / keyGet2 / keyGet3 segment by segment: variables and '*' are whole segments, '*' only last"""
     k, p = args[0], args[1]
-    if "\n" in k:
-        return None
     colon = op == "keyget2"
     if colon and p == "*":
         return enc_str("")
@@ -416,7 +412,7 @@ def seg_paths(segs, maxseg, lead):
     return out
 
 
-RND_ALPHA = list("ab/x*:{}?.") + list("+()[]\\-!^$|,1") + ["\n", "é", " ", "_"]
+RND_ALPHA = list("ab/x*:{}?.") + list("+()[]\\-!^$|,1") + ["\n", "é", " ", "_", "A"]
 
 
 def rnd_string(rng, maxlen, alpha, w=None):
@@ -647,7 +643,7 @@ def gen_cases(task, rng):
     elif kind == "random":
         n = task["n"]
         ops2 = ["keymatch", "keyget", "keymatch2", "keymatch3", "keymatch4", "keymatch5", "glob"]
-        w = [6, 6, 8, 4, 4, 3, 3, 3, 2, 2] + [1] * 13 + [1, 1, 1, 1]
+        w = [6, 6, 8, 4, 4, 3, 3, 3, 2, 2] + [1] * 13 + [1, 1, 1, 1, 1]
         for i in range(n):
             r = rng.random()
             if r < 0.35:
@@ -745,6 +741,8 @@ def work(task):
                 if got != spec:
                     out["nviol"] += 1
                     sig = glob_sig(args[1]) if op == "glob" else op
+                    if bop.startswith("key") and bop not in ("keymatch", "keyget") and "\n" in args[0]:
+                        sig = bop + ":line-feed-in-key"  # a line feed is a character like any other (F21-NLa/b)
                     if sum(1 for v in out["viol"] if v["signature"] == sig) < 3:
                         out["viol"].append(
                             {
@@ -753,27 +751,6 @@ def work(task):
                                 "op": op,
                                 "args": list(args),
                                 "expected": spec,
-                                "observed": got,
-                                "model": model,
-                            }
-                        )
-            elif op in ("keymatch2", "keymatch3", "keymatch5") and "\n" in args[0]:
-                # outside the theorems' hypothesis (single-line keys) but inside the property text ("every key"):
-                # judged by the Python denotation, known findings F21-NLa / F21-NLb
-                r = oracle_k(op, args[0], args[1], allow_nl=True)
-                if r is not None and got != enc_bool(r):
-                    out["nviol"] += 1
-                    # fail-open (a key outside the pattern accepted: the '$' anchor, F21-NLa, fixed by \\Z) and
-                    # fail-closed ('*' is '.*' and '.' does not match a line feed, F21-NLb, open) are told apart
-                    sig = "regex-family:line-feed-accepted" if got == "T" else "regex-family:star-stops-at-line-feed"
-                    if sum(1 for v in out["viol"] if v["signature"] == sig) < 2:
-                        out["viol"].append(
-                            {
-                                "signature": sig,
-                                "what": f"{op}{tuple(args)!r} returned {show(got)}, the documented pattern language gives {r} (line feed in the key)",
-                                "op": op,
-                                "args": list(args),
-                                "expected": enc_bool(r),
                                 "observed": got,
                                 "model": model,
                             }
@@ -856,6 +833,18 @@ def tasks_for(level, rng):
     # keyMatch5 query strings, line feeds in keys
     for sl in slices(strings_upto(list("a/*{}"), 4), 8):
         T.append({"kind": "pairs", "patterns": sl, "kalpha": list("a/?\n"), "klen": 4, "ops": ["keymatch5", "keymatch2", "keymatch3"], "stream": "exh-query-nl"})
+    # line feeds are ordinary key characters for every function of the regex family
+    knl = list("a/\n")
+    for sl in slices(pats, 12):
+        T.append({"kind": "pairs", "patterns": sl, "kalpha": knl, "klen": 4, "ops": ["keymatch2"], "stream": "exh-nl"})
+        T.append({"kind": "pairs", "patterns": sl, "kalpha": knl, "klen": 4, "ops": ["keyget2"], "vars": ["a", "x"], "stream": "exh-nl"})
+    for sl in slices(pats3, 24):
+        T.append({"kind": "pairs", "patterns": sl, "kalpha": knl, "klen": 4, "ops": ["keymatch3", "keymatch4", "keymatch5"], "stream": "exh-nl"})
+        T.append({"kind": "pairs", "patterns": sl, "kalpha": knl, "klen": 4, "ops": ["keyget3"], "vars": ["a", "x"], "stream": "exh-nl"})
+    # letter case is significant for every function (no flag but (?s) may reach the regex)
+    cpat = strings_upto(list("aA/*"), 3)
+    ckey = strings_upto(list("aA/"), 3)
+    T.append({"kind": "list", "cases": [(op, (k, p)) for op in ("keymatch", "keyget", "keymatch2", "keymatch3", "keymatch4", "keymatch5", "glob") for p in cpat for k in ckey] + [(op, (k, pp, "A")) for op, pp in (("keyget2", "/:A"), ("keyget2", "/a/:A"), ("keyget3", "/{A}"), ("keyget3", "/A/{A}")) for k in ckey], "stream": "exh-case"})
     # glob : {a,b,/,*,?}
     AG = list("ab/*?")
     for sl in slices(strings_upto(AG, n), 32):
@@ -896,7 +885,7 @@ def tasks_for(level, rng):
     T.append({"kind": "patterns", "patterns": pats3, "ops": ["rewrite3", "rewriteg3", "rewrite4", "rewrite5", "names3", "names4"], "stream": "rewrite"})
     rtoks = ["a", "/", ".", ".*", "[^/]+", "[^\\/]+", "([^/]+)", "([^/]+?)", "(.*)", "*", "+", "{", "}", "x", "+?"]
     rkeys = strings_upto(list("a/x\n"), 4)
-    res = ["^" + "".join(t) + "\\Z" for nn in range(0, 4) for t in itertools.product(rtoks, repeat=nn)]
+    res = ["(?s)^" + "".join(t) + "\\Z" for nn in range(0, 4) for t in itertools.product(rtoks, repeat=nn)]
     for sl in slices(res, 16):
         T.append({"kind": "list", "cases": [("remodel", (r, k)) for r in sl for k in rkeys[:: (3 if level == 0 else 1)]], "stream": "remodel"})
     # ip
@@ -950,7 +939,7 @@ def run_level(ctx, res, level):
     res.exhaustive = True
     res.rule = (
         "exhaustive: every (key, pattern) pair with pattern length <= 4 and key length <= %d over {a,/,*,:,x} (keyMatch, keyGet, keyMatch2, keyGet2) and "
-        "{a,/,*,{,},x} (keyMatch3/4/5, keyGet3), brace patterns of length 5-%d with variables, query strings and line feeds in keys, glob over {a,b,/,*,?}, glob escapes over {a,backslash,*,?,/}, "
+        "{a,/,*,{,},x} (keyMatch3/4/5, keyGet3), brace patterns of length 5-%d with variables, query strings, line feeds in keys (every function of the regex family over {a,/,line feed}), glob over {a,b,/,*,?}, glob escapes over {a,backslash,*,?,/}, "
         "glob classes over {a,b,c,[,],!,-} (patterns <= 5), range_match directly, rewrites/names of every small pattern, the regex model on every "
         "sequence of <= 3 emitted fragments, ipMatch over 64 IPv4 addresses x 64 networks x 34 prefix forms plus malformed addresses and dotted netmasks/hostmasks, "
         "over %d IPv6 address texts (single-bit neighbours around every tested prefix boundary and special addresses, each in several spellings: compressed, exploded, "
